@@ -356,3 +356,71 @@ def oncurve_direction(ctx):
         length = length + G.norm(b - a)
     ctx.prove("length-is-the-curve-length-between-the-vertices", ctx.eq(edge.length, length))
     ctx.prove("entry-names-vertex-1-then-vertex-2", edge.description.startswith("\tspline 0 1 ("))
+
+
+@proof("C07", "project-labels/one-list-of-surfaces-given-to-several-edges", cases=["wall", "bank"], level="S", samples=1,
+       functions=["classy_blocks.construct.edges:Project.convert_label", "classy_blocks.construct.edges:Project.add_label",
+                  "classy_blocks.construct.operations.operation:Operation.project_edge", EL + "add_from_operation"],
+       note="executed contract: one caller-owned list of surface names is used to project two edges, then one of them gets a second surface; "
+            "every projected edge is listed with exactly the surfaces given for it, and the caller's list stays as it was (round 5)")
+def project_labels_shared(ctx):
+    import classy_blocks as cb
+
+    surfaces = ["terrain"]
+    added = ctx.case     # sorts after / before the first name
+    given = list(surfaces)
+    box = cb.Box([0.0, 0.0, 0.0], [1.0, 1.0, 1.0])
+    box.project_edge(0, 1, surfaces)
+    box.project_edge(1, 2, surfaces)
+    box.project_edge(4, 5, list(surfaces))
+    box.project_edge(0, 1, added)
+    mesh = Mesh()
+    mesh.add(box)
+    mesh.assemble()
+    got = {}
+    for e in mesh.edge_list.edges:
+        if e.kind == "project":
+            key = frozenset((tuple(float(x) for x in e.vertex_1.position), tuple(float(x) for x in e.vertex_2.position)))
+            got[key] = sorted(e.data.label)
+    want = {
+        frozenset(((0.0, 0.0, 0.0), (1.0, 0.0, 0.0))): sorted(given + [added]),
+        frozenset(((1.0, 0.0, 0.0), (1.0, 1.0, 0.0))): sorted(given),
+        frozenset(((0.0, 0.0, 1.0), (1.0, 0.0, 1.0))): sorted(given),
+    }
+    ctx.prove("each-projected-edge-listed-with-the-surfaces-given-for-it", got == want, got=str(got)[:300])
+    ctx.prove("the-callers-list-is-not-altered", surfaces == given)
+
+
+@proof("C07", "assembly-history/edges-redefined-on-the-faces-between-assemblies", cases=["assemble-clear", "edges-read-only"], level="S", samples=1,
+       functions=["classy_blocks.construct.operations.operation:Operation.edges", "classy_blocks.construct.flat.face:Face.add_edge",
+                  "classy_blocks.construct.flat.face:Face.remove_edges", EL + "add_from_operation", "classy_blocks.mesh:Mesh.clear"],
+       note="executed contract: the mesh is assembled once (or the operation's edges are just looked at), cleared, the user removes an edge and "
+            "defines two others through the faces, and the mesh is assembled again: exactly the edges defined now are listed, once each, with "
+            "the data given (round 5: an operation remembering its frame of edges)")
+def edges_redefined(ctx):
+    import classy_blocks as cb
+
+    bottom = cb.Face([[0, 0, 0], [1, 0, 0], [1, 1, 0], [0, 1, 0]], [cb.Arc([0.5, -0.2, 0]), None, None, None])
+    top = cb.Face([[0, 0, 1], [1, 0, 1], [1, 1, 1], [0, 1, 1]])
+    loft = cb.Loft(bottom, top)
+    mesh = Mesh()
+    mesh.add(loft)
+    if ctx.case == "assemble-clear":
+        mesh.assemble()
+        ctx.prove("first-assembly-lists-the-arc", [e.kind for e in mesh.edge_list.edges] == ["arc"])
+        mesh.clear()
+    else:
+        _ = loft.edges
+    spline, arc = cb.Spline([[1.1, 0.25, 1], [1.15, 0.5, 1], [1.1, 0.75, 1]]), cb.Arc([-0.2, 0.5, 1])
+    loft.bottom_face.remove_edges()
+    loft.top_face.add_edge(1, spline)
+    loft.top_face.add_edge(3, arc)
+    mesh.assemble()
+    ents = mesh.edge_list.edges
+    ctx.prove("exactly-the-edges-defined-now", sorted(e.kind for e in ents) == ["arc", "spline"], kinds=[e.kind for e in ents])
+    ends = lambda e: {tuple(float(x) for x in e.vertex_1.position), tuple(float(x) for x in e.vertex_2.position)}
+    for e in ents:
+        if e.kind == "spline":
+            ctx.prove("spline-on-the-edge-it-was-given-for-with-its-data", e.data is spline and ends(e) == {(1.0, 0.0, 1.0), (1.0, 1.0, 1.0)})
+        if e.kind == "arc":
+            ctx.prove("arc-on-the-edge-it-was-given-for-with-its-data", e.data is arc and ends(e) == {(0.0, 1.0, 1.0), (0.0, 0.0, 1.0)})
